@@ -6,7 +6,7 @@ World: SW (real switch + ExpireMixin's real recurring Timer under the
 virtual clock), refinement against models.of10switch via worlds.swref.
 """
 
-from simkit.rng import Rng
+from simkit.rng import Rng, mix
 from worlds import swref
 from checks import swgen as G
 from models import of10wire as W
@@ -92,6 +92,13 @@ def gen_plan(seed, tier):
             "acts": G.gen_actions(r, nports), "cookie": r.randrange(1 << 16),
             "idle": r.pick([0, 0, 1, 2, 3, 5]),
             "hard": r.pick([0, 0, 0, 1, 2, 3, 5]), "flags": flags}
+      rv = Rng(mix(seed, "vlanact", len(steps)))
+      if rv.chance(0.2):
+        # actions that change the frame's length on its way out: what an
+        # entry counts is what it received
+        st["acts"] = [rv.pick([["set_vlan_vid", 7], ["set_vlan_vid", 100],
+                               ["set_vlan_pcp", 3], ["strip_vlan"]])] \
+            + st["acts"]
       if exact:
         # for exact-match entries the specification gives the priority
         # field no meaning (identity and overlap become ambiguous)
